@@ -59,7 +59,9 @@ def edges_replay(chk, emitted):
     wheres = ['distinguisher', 'attack', 'reverse', 'setter']
     for i, e in enumerate(emitted):
         ints = e['e']
-        forms = [('list', ints), ('float64', np.array(ints, dtype='float64') * 0.25 - 3.0)]
+        forms = [('list', ints), ('float64', np.array(ints, dtype='float64') * 0.25 - 3.0), ('offset-30000', np.array(ints, dtype='float64') * 0.25 + 30000.0)]
+        if i % 2 == 0:
+            forms.append(('offset-2e6', np.array(ints, dtype='float64') * 4.0 + 2.0e6))
         if i % 3 == 0:
             forms.append(('int-array', np.array(ints, dtype='int64') * 3 + 100))
         for fname, ed in forms:
